@@ -654,7 +654,7 @@ impl AtomicU64 {
     pub fn fetch_add(&self, val: u64, order: Ordering, w: &mut World) -> (r: u64)
         ensures
             // the id allocator's increments are not an observable effect (freshness is stated through id_floor)
-            final(w).log() == (if self.cell() == cell_ACTOR_IDS() { old(w).log() } else { old(w).log().push(Eff::FetchAdd(self.cell(), val)) }),
+            final(w).log() == (if fetch_add_silent(self.cell()) { old(w).log() } else { old(w).log().push(Eff::FetchAdd(self.cell(), val)) }),
             self.cell() == cell_ACTOR_IDS() ==> (r as int >= old(w).id_floor() && final(w).id_floor() == r as int + val as int),
             self.cell() != cell_ACTOR_IDS() ==> final(w).id_floor() == old(w).id_floor(),
             self.cell() == cell_DEAD_LETTER_COUNT() ==> final(w).dl_count() == old(w).dl_count() + val as nat,
@@ -724,6 +724,11 @@ pub open spec fn same_ambient_but_cells(w0: World, w1: World) -> bool {
     &&& w1.own_strong() == w0.own_strong()
 }
 pub open spec fn cell_ACTOR_IDS() -> int { 1 }
+#[cfg(not(feature = "vx-nodl"))]
+pub open spec fn fetch_add_silent(cell: int) -> bool { cell == cell_ACTOR_IDS() }
+/// attribution variant `vx-nodl`: the dead-letter counter's increments are erased with the rest of the dead-letter alphabet
+#[cfg(feature = "vx-nodl")]
+pub open spec fn fetch_add_silent(cell: int) -> bool { cell == cell_ACTOR_IDS() || cell == cell_DEAD_LETTER_COUNT() }
 pub open spec fn cell_DEAD_LETTER_COUNT() -> int { 2 }
 pub open spec fn cell_DEFAULT_CAPACITY() -> int { 3 }
 
